@@ -88,10 +88,10 @@ def coq_files():
 
 def coq_make(targets, timeout=2400, per_file=None):
     """full .vo build of the given targets (and what they depend on). Returns (ok, output).
-    Every coqc runs under `timeout per_file` (default 300 s, WV_COQC_TIMEOUT overrides; the slowest file of the unchanged tree needs
+    Every coqc runs under `timeout per_file` (default 240 s, WV_COQC_TIMEOUT overrides; the slowest file of the unchanged tree needs
     ~90 s alone, ~200 s when 16 build in parallel): a changed source can send a proof script into a very long search - that is a
     broken proof obligation, reported as such, not a reason for the check to run for an hour."""
-    per_file = per_file or int(os.environ.get("WV_COQC_TIMEOUT", "300"))
+    per_file = per_file or int(os.environ.get("WV_COQC_TIMEOUT", "240"))
     with Lock("coq"):
         if not os.path.exists(os.path.join(COQ, "Makefile")) or \
                 os.path.getmtime(os.path.join(COQ, "Makefile")) < os.path.getmtime(os.path.join(COQ, "_CoqProject")):
